@@ -28,7 +28,8 @@ REPO = os.environ.get("JEDI_REPO_BASE", "/repo")
 
 # file (regex) -> ordered list of (property, extra args); cheapest / most specific first
 MAP = [
-    (r"src/core/arch/aarch64/|src/core/arch/armv6_m/|include/core/arch/(aarch64|armv6_m)/", [("C03", ["--sub", "arm"])]),
+    (r"include/core/arch/(aarch64|armv6_m)/|src/core/arch/armv6_m/fp.cpp", [("C03", ["--sub", "primitives"]), ("C03", ["--sub", "generic"])]),
+    (r"src/core/arch/aarch64/|src/core/arch/armv6_m/", [("C03", ["--sub", "arm"])]),
     (r"src/core/arch/x86_64/.*\.s$|include/core/arch/x86_64/", [("C03", []), ("C02", [])]),
     (r"src/core/arch/x86_64/runtime.cpp", [("C03", []), ("C20", [])]),
     (r"include/core/bigint.hpp", [("C03", []), ("C02", []), ("C18", []), ("C06", [])]),
